@@ -9,8 +9,15 @@ use serde_json::{Value, json};
 use std::sync::Arc;
 use std::time::Duration;
 
-/// the reply text: element i (1-based position p) answers `id` with token p; every third element is an error object
-fn reply_text(ids: &[i64], string_ids: bool) -> String {
+/// the caller's result type R: `{"tok": <number>}` decodes, anything else does not
+#[derive(serde::Deserialize, Debug)]
+struct Tok {
+	tok: i64,
+}
+
+/// the reply text: element i (1-based position p) answers `id` with token p; every third element is an error object; the
+/// element at position `undec` (when it is a result) carries its token as a string, which does not decode into `Tok`
+fn reply_text(ids: &[i64], string_ids: bool, undec: usize) -> String {
 	let els: Vec<String> = ids
 		.iter()
 		.enumerate()
@@ -19,6 +26,8 @@ fn reply_text(ids: &[i64], string_ids: bool) -> String {
 			let idj = if string_ids { format!("\"{id}\"") } else { id.to_string() };
 			if p % 3 == 0 {
 				format!(r#"{{"jsonrpc":"2.0","id":{idj},"error":{{"code":-32000,"message":"e","data":{p}}}}}"#)
+			} else if p == undec {
+				format!(r#"{{"jsonrpc":"2.0","id":{idj},"result":{{"tok":"{p}"}}}}"#)
 			} else {
 				format!(r#"{{"jsonrpc":"2.0","id":{idj},"result":{{"tok":{p}}}}}"#)
 			}
@@ -27,18 +36,21 @@ fn reply_text(ids: &[i64], string_ids: bool) -> String {
 	format!("[{}]", els.join(","))
 }
 
-fn observe(r: Result<BatchResponse<Value>, Error>) -> Value {
+fn observe(r: Result<BatchResponse<Tok>, Error>) -> Value {
 	match r {
 		Ok(br) => {
 			let (ok, failed, len) = (br.num_successful_calls(), br.num_failed_calls(), br.len());
+			// the all-or-errors view of the same response: how many values `ok()` hands out (-1: it reports errors instead)
+			let ok_view = br.ok().map(|it| it.count() as i64).unwrap_or(-1);
+			let entries_err = br.iter().filter(|e| e.is_err()).count();
 			let slots: Vec<i64> = br
 				.into_iter()
 				.map(|e| match e {
-					Ok(v) => v["tok"].as_i64().unwrap_or(-7),
+					Ok(v) => v.tok,
 					Err(eo) => eo.data().and_then(|d| serde_json::from_str::<i64>(d.get()).ok()).unwrap_or(-1),
 				})
 				.collect();
-			json!({"k": "ok", "slots": slots, "ok": ok, "failed": failed, "len": len})
+			json!({"k": "ok", "slots": slots, "ok": ok, "failed": failed, "len": len, "ok_view": ok_view, "entries_err": entries_err})
 		}
 		Err(e) => json!({"k": "fail", "err": e.to_string()}),
 	}
@@ -57,8 +69,12 @@ fn acceptable(c: &Value, o: &Value) -> Option<String> {
 	if slots.len() != n {
 		return Some(if slots.len() < n { "shorter-result".into() } else { "longer-result".into() });
 	}
+	let undec = c["undec"].as_i64().unwrap();
 	for (i, t) in slots.iter().enumerate() {
 		let own = start + i as i64;
+		if undec > 0 && undec % 3 != 0 && *t == undec {
+			return Some("slot-shows-a-value-that-does-not-decode".into());
+		}
 		if *t == -1 {
 			if perm {
 				return Some("slot-empty-for-complete-reply".into());
@@ -72,8 +88,13 @@ fn acceptable(c: &Value, o: &Value) -> Option<String> {
 	// counts: every third reply element is an error object; placeholders count as failed
 	let failed = slots.iter().filter(|t| **t == -1 || **t % 3 == 0).count() as u64;
 	let ok = n as u64 - failed;
-	if o["ok"].as_u64() != Some(ok) || o["failed"].as_u64() != Some(failed) {
+	if o["ok"].as_u64() != Some(ok) || o["failed"].as_u64() != Some(failed) || o["entries_err"].as_u64() != Some(failed) {
 		return Some("success-failure-counts-differ".into());
+	}
+	// the all-or-errors view hands out every value or none
+	let view = o["ok_view"].as_i64().unwrap();
+	if view >= 0 && (view as usize != n || failed != 0) {
+		return Some("ok-view-shorter-than-the-batch".into());
 	}
 	None
 }
@@ -97,13 +118,14 @@ impl<B> tower::Service<HttpRequest<B>> for Scripted {
 
 pub fn replay(cases: &[Value], out: &mut crate::common::Out) {
 	let rt = tokio::runtime::Builder::new_current_thread().enable_all().build().unwrap();
+	let mut drift = 0u64;
 	rt.block_on(async {
 		for (i, c) in cases.iter().enumerate() {
 			let n = c["n"].as_u64().unwrap() as usize;
 			let start = c["start"].as_i64().unwrap();
 			let reply: Vec<i64> = c["reply"].as_array().unwrap().iter().map(|x| x.as_i64().unwrap()).collect();
 			let string_ids = i % 2 == 1;
-			let text = reply_text(&reply, string_ids);
+			let text = reply_text(&reply, string_ids, c["undec"].as_u64().unwrap() as usize);
 			let mut probs: Vec<(String, Value)> = vec![];
 			let mk_batch = || {
 				let mut b = BatchRequestBuilder::new();
@@ -131,7 +153,7 @@ pub fn replay(cases: &[Value], out: &mut crate::common::Out) {
 				settle(20).await;
 				let cl = rig.client.clone();
 				let b = mk_batch();
-				let task = tokio::spawn(async move { cl.batch_request::<Value>(b).await });
+				let task = tokio::spawn(async move { cl.batch_request::<Tok>(b).await });
 				settle(10).await;
 				let on_wire: Vec<i64> = rig.wire.lock().iter().filter(|o| o.kind == "batch").flat_map(|o| o.ids.iter().map(id_as_num).collect::<Vec<_>>()).collect();
 				let want_wire: Vec<i64> = (start..start + n as i64).collect();
@@ -158,7 +180,9 @@ pub fn replay(cases: &[Value], out: &mut crate::common::Out) {
 						let strict = &c["strict"];
 						let same = if strict["k"] == "fail" { o["k"] == "fail" } else { o["k"] == "ok" && o["slots"] == strict["slots"] };
 						if !same {
-							probs.push(("async:outcome-differs-from-model".into(), json!({"case": c, "observed": o})));
+							// not a violation by itself (the property leaves the choice between failing the call and reporting
+							// the entry as an error open): counted, and reported in the evidence as drift between code and model
+							drift += 1;
 						}
 					}
 				}
@@ -178,7 +202,7 @@ pub fn replay(cases: &[Value], out: &mut crate::common::Out) {
 					let _ = client.request::<Value, _>("m", ArrayParams::new()).await;
 				}
 				*script.0.lock() = text.clone();
-				let o = observe(client.batch_request::<Value>(mk_batch()).await);
+				let o = observe(client.batch_request::<Tok>(mk_batch()).await);
 				if let Some(p) = acceptable(c, &o) {
 					probs.push((format!("http:{p}"), json!({"case": c, "observed": o, "text": text})));
 				}
@@ -186,4 +210,5 @@ pub fn replay(cases: &[Value], out: &mut crate::common::Out) {
 			out.problems(i, 0, probs, Value::Null);
 		}
 	});
+	out.raw(&json!({"stat": "model_drift", "n": drift}));
 }
